@@ -21,7 +21,9 @@ RULE = ('(a) arithmetic: T=2..5 x every pair of non-empty defined-slice patterns
         'producing NaN at chosen slices (method and numpy call); (c) complex content on its supported subset; (d) index maps '
         'roll(dt=-2T-1..2T+1), reverse, thin(spacing 1..4, offset 0..3), symmetric, anti_symmetric, T_symmetry(+-1), item, '
         'projected (array / per-timeslice vectors, normalize on/off), trace, matrix_symmetric, Hankel(N=1..3, periodic on/off), '
-        'repr/print with a range, every pattern for T<=6; (e) aliasing oracle on all of these.  Non-trivial = an operand '
+        'repr/print with a range, every pattern for T<=6; (e) aliasing oracle on all of these; (f) chains: every sequence of <= 3 (quick) / 4 (thorough, four of the eight initial correlators) operations from a '
+        '23+19-letter alphabet (index maps, arithmetic with Corr/Obs/number partners, exp/log/abs/**2, Hankel, item, trace, matrix_symmetric, projected, matmul) started from 8 initial '
+        'correlators (T=4,5,6,8 with undefined and negative slices), each intermediate Corr compared with a list model and operands checked for mutation.  Non-trivial = an operand '
         'has an undefined slice, or a non-Corr partner, or a NaN-producing value, or an index map')
 ASSUMPTIONS = ['per-timeslice expectations are formed with pyerrors scalar Obs arithmetic (decided by C01)',
                'inside the support table a designed refusal (the library\'s own TypeError for a wrong partner type, a missing '
@@ -249,7 +251,21 @@ def build(tier, seed):
     for T in (3, 4, 6):
         cases.append({'kind': 'matrix-maps', 'T': T})
     cases.append({'kind': 'partial-matrix'})
+    # chains of operations: every sequence of <= depth steps; one case per (initial correlator, first step)
+    for init in sorted(CHAIN_INIT):
+        deep = tier != 'quick' and init in ('t4', 't4h1', 't5h03', 't6h2')
+        firsts = sorted(n for n in _chain_names(CHAIN_INIT[init][0]) if n.endswith('@1'))
+        for first in firsts:
+            cases.append({'kind': 'chain', 'init': init, 'depth': 4 if deep else 3, 'first': first})
     return cases
+
+
+def _chain_names(T):
+    base = ['roll1', 'roll-2', 'reverse', 'thin20', 'thin21', 'thin31', 'neg', '*obs', 'obs-', '2.5/']
+    n1 = [b + '@1' for b in base] + ['+K@1', 'K-@1', '*Bh@1', '/Bh@1', '**2@1', 'exp@1', 'log@1', 'abs@1', 'T_symmetry@1', 'Hankel2@1', 'Hankel2p@1']
+    if T % 2 == 0:
+        n1 += ['symmetric@1', 'anti_symmetric@1']
+    return n1
 
 
 def vals_for(T, base=1.5, step=0.3):
@@ -276,6 +292,8 @@ def run_case(case):
             run_matrix_maps(pe, acc, case)
         elif k == 'partial-matrix':
             run_partial(pe, acc, case)
+        elif k == 'chain':
+            run_chain(pe, acc, case)
     return acc
 
 
@@ -617,3 +635,207 @@ def run_partial(pe, acc, case):
                 call_checked(pe, acc, 'partial-matrix:' + un, sub, '%s with partially missing matrices %s' % (un, ks), f, [A],
                              lambda: [f(A0.content[t]) if defined[t] else None for t in range(T)], T, N, key=('pm', ks, un))
     acc.sample({'kind': 'partial-matrix', 'slice_kinds': kinds})
+
+
+# ------------------------------------------------------------------ chains of operations (depth-bounded, exhaustive)
+# A correlator reached by one operation is fed into the next: every sequence of <= depth operations from a small
+# alphabet, started from several initial correlators, is executed on the real Corr objects and on a plain list model
+# (one entry per timeslice: None or an object array).  After every step the Corr must equal the model, and the
+# operand of the step must be untouched.  This reaches states no single call reaches (results of Hankel fed to item /
+# trace / matmul, thinned and rolled correlators being symmetrised, NaN slices created by log after a sign change...).
+def _mat(pe, f):
+    """slice-wise model helper: apply f to a defined slice, None stays None, NaN result -> None"""
+    def g(c):
+        out = []
+        for e in c:
+            if e is None:
+                out.append(None)
+                continue
+            with warnings.catch_warnings():
+                warnings.simplefilter('ignore')
+                r = f(e)
+            out.append(None if entry_isnan(r, pe) else r)
+        return out
+    return g
+
+
+def _pair(pe, f, other):
+    def g(c):
+        out = []
+        for t, e in enumerate(c):
+            o = other[t]
+            if e is None or o is None:
+                out.append(None)
+                continue
+            with warnings.catch_warnings():
+                warnings.simplefilter('ignore')
+                r = f(e, o)
+            out.append(None if entry_isnan(r, pe) else r)
+        return out
+    return g
+
+
+def _matmul_model(a, b):
+    n = a.shape[0]
+    out = np.empty((n, n), dtype=object)
+    for i in range(n):
+        for j in range(n):
+            s = a[i, 0] * b[0, j]
+            for k in range(1, n):
+                s = s + a[i, k] * b[k, j]
+            out[i, j] = s
+    return out
+
+
+def _hankel_model(c, T, Nh, periodic):
+    out = []
+    for t in range(T):
+        m = np.empty((Nh, Nh), dtype=object)
+        ok = True
+        for i in range(Nh):
+            for j in range(Nh):
+                idx = t + i + j
+                if periodic:
+                    idx %= T
+                elif idx >= T:
+                    ok = False
+                    break
+                if c[idx] is None:
+                    ok = False
+                    break
+                m[i, j] = c[idx][0]
+            if not ok:
+                break
+        out.append(m if ok else None)
+    return out
+
+
+def _sym_model(c, T, sg):
+    out = [c[0]]
+    for t in range(1, T):
+        out.append(None if (c[t] is None or c[T - t] is None) else 0.5 * (c[t] + sg * c[T - t]))
+    return out
+
+
+def chain_alphabet(pe, T):
+    """name -> (N it applies to, implementation step, model step, N of the result, partner objects)."""
+    K = mkcorr(pe, ('chK', T), [1] * T, vals_for(T, 0.7, 0.1))
+    Bh = mkcorr(pe, ('chB', T), [0 if t == 2 else 1 for t in range(T)], vals_for(T, 1.1, -0.07))
+    M2 = mkcorr(pe, ('chM', T), [0 if t == 1 else 1 for t in range(T)], vals_for(T, 0.9, 0.05), 2)
+    o = mkobs(pe, ('chO', T), 1.7)
+    v = np.array([1.0, -0.5])
+    vn = v / np.sqrt(v @ v)
+    A = {}
+    for N in (1, 2):
+        for dt in (1, -2):
+            A['roll%d@%d' % (dt, N)] = (N, lambda C, dt=dt: C.roll(dt), lambda c, dt=dt: [c[(t - dt) % T] for t in range(T)], N, [])
+        A['reverse@%d' % N] = (N, lambda C: C.reverse(), lambda c: [c[T - 1 - t] for t in range(T)], N, [])
+        for sp, off in ((2, 0), (2, 1), (3, 1)):
+            A['thin%d%d@%d' % (sp, off, N)] = (N, lambda C, sp=sp, off=off: C.thin(sp, off),
+                                               lambda c, sp=sp, off=off: [c[t] if (off + t) % sp == 0 else None for t in range(T)], N, [])
+        A['neg@%d' % N] = (N, lambda C: -C, _mat(pe, lambda e: -1 * e), N, [])
+        A['*obs@%d' % N] = (N, lambda C: C * o, _mat(pe, lambda e: e * o), N, [o])
+        A['obs-@%d' % N] = (N, lambda C: o - C, _mat(pe, lambda e: o - e), N, [o])
+        A['2.5/@%d' % N] = (N, lambda C: C / 2.5, _mat(pe, lambda e: e / 2.5), N, [])
+    A['+K@1'] = (1, lambda C: C + K, _pair(pe, lambda e, k: e + k, K.content), 1, [K])
+    A['K-@1'] = (1, lambda C: K - C, _pair(pe, lambda e, k: k - e, K.content), 1, [K])
+    A['*Bh@1'] = (1, lambda C: C * Bh, _pair(pe, lambda e, k: e * k, Bh.content), 1, [Bh])
+    A['/Bh@1'] = (1, lambda C: C / Bh, _pair(pe, lambda e, k: e / k, Bh.content), 1, [Bh])
+    A['**2@1'] = (1, lambda C: C ** 2, _mat(pe, lambda e: e ** 2), 1, [])
+    A['exp@1'] = (1, lambda C: np.exp(C), _mat(pe, lambda e: np.exp(e)), 1, [])
+    A['log@1'] = (1, lambda C: C.log(), _mat(pe, lambda e: np.log(e)), 1, [])
+    A['abs@1'] = (1, lambda C: abs(C), _mat(pe, lambda e: np.abs(e)), 1, [])
+    if T % 2 == 0:
+        A['symmetric@1'] = (1, lambda C: C.symmetric(), lambda c: _sym_model(c, T, 1.0), 1, [])
+        A['anti_symmetric@1'] = (1, lambda C: C.anti_symmetric(), lambda c: _sym_model(c, T, -1.0), 1, [])
+    A['T_symmetry@1'] = (1, lambda C: C.T_symmetry(K, -1), lambda c: [None if c[t] is None else 0.5 * (c[t] - K.content[T - 1 - t]) for t in range(T)], 1, [K])
+    A['Hankel2@1'] = (1, lambda C: C.Hankel(2), lambda c: _hankel_model(c, T, 2, False), 2, [])
+    A['Hankel2p@1'] = (1, lambda C: C.Hankel(2, periodic=True), lambda c: _hankel_model(c, T, 2, True), 2, [])
+    A['+M2@2'] = (2, lambda C: C + M2, _pair(pe, lambda e, k: e + k, M2.content), 2, [M2])
+    A['@M2@2'] = (2, lambda C: C @ M2, _pair(pe, _matmul_model, M2.content), 2, [M2])
+    A['M2@@2'] = (2, lambda C: M2 @ C, _pair(pe, lambda e, k: _matmul_model(k, e), M2.content), 2, [M2])
+    A['item01@2'] = (2, lambda C: C.item(0, 1), lambda c: [None if e is None else np.array([e[0, 1]], dtype=object) for e in c], 1, [])
+    A['item10@2'] = (2, lambda C: C.item(1, 0), lambda c: [None if e is None else np.array([e[1, 0]], dtype=object) for e in c], 1, [])
+    A['trace@2'] = (2, lambda C: C.trace(), lambda c: [None if e is None else np.array([e[0, 0] + e[1, 1]], dtype=object) for e in c], 1, [])
+    A['matrix_symmetric@2'] = (2, lambda C: C.matrix_symmetric(), lambda c: [None if e is None else 0.5 * (e + e.T) for e in c], 2, [])
+    A['projected@2'] = (2, lambda C: C.projected(v), lambda c: [None if e is None else np.array([v @ e @ v], dtype=object) for e in c], 1, [v])
+    A['projected-n@2'] = (2, lambda C: C.projected(v, normalize=True), lambda c: [None if e is None else np.array([vn @ e @ vn], dtype=object) for e in c], 1, [v])
+    return A
+
+
+CHAIN_INIT = {
+    't4': (4, [1, 1, 1, 1]), 't4h1': (4, [1, 0, 1, 1]), 't5': (5, [1, 1, 1, 1, 1]), 't5h03': (5, [0, 1, 1, 0, 1]),
+    't6': (6, [1, 1, 1, 1, 1, 1]), 't6h2': (6, [1, 1, 0, 1, 1, 1]), 't6h45': (6, [1, 1, 1, 1, 0, 0]), 't8h3': (8, [1, 1, 1, 0, 1, 1, 1, 1]),
+}
+
+
+def _finite_model(c, pe):
+    for e in c:
+        if e is None:
+            continue
+        for x in np.asarray(e, dtype=object).ravel():
+            if not np.isfinite(x.value) or any(not np.all(np.isfinite(d)) for d in x.deltas.values()):
+                return False
+    return True
+
+
+def run_chain(pe, acc, case):
+    T, pat = CHAIN_INIT[case['init']]
+    depth = case['depth']
+    A = chain_alphabet(pe, T)
+    names = sorted(A)
+    vals = vals_for(T, 1.5, 0.3)
+    vals[T // 2] = -0.6            # one negative entry: log makes a NaN slice there
+    C0 = mkcorr(pe, ('chain', case['init']), pat, vals)
+    only = case.get('path')
+    stats = {'nodes': 0}
+
+    def step(C, c, N, path):
+        if len(path) >= depth:
+            return
+        for nm in names:
+            n_in, f, g, n_out, partners = A[nm]
+            if n_in != N:
+                continue
+            if len(path) == 0 and 'first' in case and nm != case['first']:
+                continue
+            if only is not None and only[len(path)] != nm:
+                continue
+            newpath = path + [nm]
+            sub = {'kind': 'chain', 'init': case['init'], 'depth': len(newpath), 'path': newpath}
+            try:
+                exp = g(c)
+            except Exception as e:
+                raise engine.MachineryError('chain model %s failed: %r' % (newpath, e))
+            if not _finite_model(exp, pe):
+                acc.skip('chain-nonfinite-intermediate')     # division by an exact zero etc.: not followed
+                continue
+            args = [C] + partners
+            before = [snapshot(a, pe) for a in args]
+            stats['nodes'] += 1
+            try:
+                with warnings.catch_warnings():
+                    warnings.simplefilter('ignore')
+                    R = f(C)
+            except Exception as e:
+                if all(x is None for x in exp):
+                    acc.ok(('chain', case['init'], tuple(newpath)), False, 'chain:all-undefined-refused')
+                else:
+                    acc.fail('chain:%s:raised' % nm.split('@')[0], sub, 'after %s, %s raised %s: %s' % (path, nm, type(e).__name__, e))
+                continue
+            after = [snapshot(a, pe) for a in args]
+            if after != before:
+                acc.fail('chain:%s:mutates-argument' % nm.split('@')[0], sub, 'after %s, %s modified its operand/argument' % (path, nm))
+                continue
+            if all(x is None for x in exp):
+                acc.ok(('chain', case['init'], tuple(newpath)), False, 'chain:all-undefined')
+                continue
+            bad = compare_corr(pe, R, T, n_out, exp, rtol=1e-10)
+            if bad:
+                acc.fail('chain:%s' % nm.split('@')[0], sub, 'sequence %s from %s%s: %s' % (newpath, case['init'], pat, bad))
+                continue
+            acc.ok(('chain', case['init'], tuple(newpath)), True, 'chain-depth%d' % len(newpath))
+            step(R, exp, n_out, newpath)
+    step(C0, list(C0.content), 1, [])
+    acc.count('chain-nodes', stats['nodes'])
+    acc.sample({'kind': 'chain', 'init': case['init'], 'pattern': pat, 'depth': depth, 'first': case.get('first'), 'alphabet': names})
